@@ -28,11 +28,11 @@ type RX struct {
 // Alphabets.
 var (
 	// AlphaBasic are characters that appear in literals and classes.
-	AlphaBasic = []rune("abcxyz01_ -+()[].*$^|\\\"'/<>{}\n\té世")
+	AlphaBasic = []rune("abcxyzks01_ -+()[].*$^|\\\"'/<>{}\n\t\u00e9\u4e16")
 	// AlphaPlain excludes regex metacharacters.
-	AlphaPlain = []rune("abcxyz01_ ")
+	AlphaPlain = []rune("abcxyzks01_ ")
 	// AlphaInput additionally holds characters no rule mentions, fold partners and CR.
-	AlphaInput = []rune("abcxyzABC012_ -+()[].*$^|\\\"'/<>{}\n\t\ré世ſKq;")
+	AlphaInput = []rune("abcxyzksABCKS012_ -+()[].*$^|\\\"'/<>{}\n\t\r\u00e9\u4e16\u017f\u212aq;")
 )
 
 func quoteRune(r rune) string { return regexp.QuoteMeta(string(r)) }
@@ -348,6 +348,17 @@ func gen(r *mon.RNG, o *GenOpts, depth int) *RX {
 		return &RX{Op: "grp", Kids: []*RX{a}}
 	case 4: // repetition
 		k := gen(r, o, depth-1)
+		if r.Chance(1, 5) {
+			// a body that can itself match the empty string: (x?)*, (x*)+, (|x)*
+			switch r.Intn(3) {
+			case 0:
+				k = &RX{Op: "quest", Kids: []*RX{k}}
+			case 1:
+				k = &RX{Op: "star", Kids: []*RX{k}}
+			default:
+				k = &RX{Op: "grp", Kids: []*RX{{Op: "alt", Kids: []*RX{{Op: "lit", Lit: ""}, k}}}}
+			}
+		}
 		op := r.Pick("star", "plus", "quest", "plus", "star")
 		x := &RX{Op: op, Kids: []*RX{k}}
 		if o.Repeat && r.Chance(1, 5) {
@@ -395,9 +406,9 @@ func (x *RX) sample(r *mon.RNG, groups []string, sb *strings.Builder, fold bool)
 				if r.Chance(1, 8) {
 					// Unicode fold partners of ASCII letters.
 					if c == 'k' || c == 'K' {
-						c = 'K'
+						c = '\u212a' // KELVIN SIGN folds to k
 					} else if c == 's' || c == 'S' {
-						c = 'ſ'
+						c = '\u017f' // LATIN SMALL LETTER LONG S folds to s
 					}
 				}
 			}
